@@ -1,7 +1,7 @@
 (* C06 — selection, restriction and picking have their relational meaning. *)
 From Coq Require Import List NArith Bool. Import ListNotations.
-From BddVerif Require Import Model.Bdd Model.Apply Model.Ops Proofs.Sem Proofs.Canon Proofs.ApplySem Proofs.ApplyTop
-  Proofs.RelSem Proofs.PvalSem Proofs.PickSem.
+From BddVerif Require Import Model.Bdd Model.Apply Model.Ops Model.Restrict Proofs.Sem Proofs.Canon Proofs.ApplySem Proofs.ApplyTop
+  Proofs.RelSem Proofs.PvalSem Proofs.PickSem Proofs.Restrict.
 Open Scope N_scope.
 
 (* select keeps exactly the valuations of the operand that agree with the literals (a repeated variable: last literal wins) *)
@@ -57,3 +57,67 @@ Theorem C06_pick : forall b vars, wf b -> NoDup vars -> Forall (fun x => x < nva
        forall y, In y vars -> w1 y = w2 y).
 Proof. exact pick_correct. Qed.
 Print Assumptions C06_pick.
+
+(* ---- the order-faithful model of the dedicated single-pass algorithm (`fn restriction`: DFS with the new_id
+   table, the node cache, high child before low child; Model/Restrict.v).  It is the model the correspondence
+   reports for restrict / var_restrict; the compositional model above is proved to return the same array. ---- *)
+
+(* total on every well-formed operand; the result reads the operand at v overridden by the fixed cells of the
+   partial valuation (cells of variables the operand does not have are irrelevant) *)
+Theorem C06_restrict_faithful_sem : forall b pv, wf b ->
+  exists r, restriction b pv = Some r /\ wf r /\ nvars r = nvars b /\
+    forall v, eval r v = eval b (override v (filter (fun xc => fst xc <? nvars b) (pv_cells pv))).
+Proof. exact restriction_sem. Qed.
+Print Assumptions C06_restrict_faithful_sem.
+
+Theorem C06_restrict_faithful_sem_all_cells : forall b pv, wf b ->
+  exists r, restriction b pv = Some r /\ wf r /\ nvars r = nvars b /\
+    forall v, eval r v = eval b (override v (pv_cells pv)).
+Proof. exact restriction_sem_all. Qed.
+Print Assumptions C06_restrict_faithful_sem_all_cells.
+
+(* pointwise form, with canonicity of the result for a merely well-formed operand *)
+Theorem C06_restrict_faithful_full : forall b pv, wf b ->
+  exists r, restriction b pv = Some r /\ Canonical r /\ nvars r = nvars b /\
+    forall v, eval r v = eval b (fun y => match pv_get pv y with Some c => c | None => v y end).
+Proof. exact restriction_full. Qed.
+Print Assumptions C06_restrict_faithful_full.
+
+(* API level (Bdd::restrict): a repeated variable takes its last listed value *)
+Theorem C06_restrict_faithful_last_value : forall b lits, wf b ->
+  exists r, restrict_faithful b lits = Some r /\ Canonical r /\ nvars r = nvars b /\
+    forall v, eval r v = eval b (fun y => match last_value lits y with Some c => c | None => v y end).
+Proof. exact restrict_faithful_last_value. Qed.
+Print Assumptions C06_restrict_faithful_last_value.
+
+(* Bdd::var_restrict: both models return the same array, it is canonical and denotes b[x := c] *)
+Theorem C06_restrict_faithful_var : forall b x c, wf b ->
+  exists r, var_restrict_faithful b x c = Some r /\ var_restrict b x c = Ok r /\ Canonical r /\ nvars r = nvars b /\
+    forall v, eval r v = eval b (upd v x c).
+Proof. exact var_restrict_faithful_correct. Qed.
+Print Assumptions C06_restrict_faithful_var.
+
+(* the faithful algorithm returns exactly the array of the compositional model *)
+Theorem C06_restrict_faithful_eq_model : forall b lits, Canonical b ->
+  restriction b (pv_from_values lits) = match restrict b lits with Ok r => Some r | _ => None end.
+Proof. exact restriction_eq_model. Qed.
+Print Assumptions C06_restrict_faithful_eq_model.
+
+(* ... even when the operand is merely well-formed (this is what the driver's cross-check relies on) *)
+Theorem C06_restrict_faithful_eq_model_wf : forall b lits, wf b ->
+  restriction b (pv_from_values lits) = match restrict b lits with Ok r => Some r | _ => None end.
+Proof. exact restriction_eq_model_wf. Qed.
+Print Assumptions C06_restrict_faithful_eq_model_wf.
+
+(* non-vacuity: a canonical operand, a restriction to the constant false, a valid non-canonical operand *)
+Example C06_restrict_faithful_nonvacuous :
+  let f := [mkNode 3 0 0; mkNode 3 1 1; mkNode 1 0 1; mkNode 0 2 1] in
+  let n := [mkNode 3 0 0; mkNode 3 1 1; mkNode 1 0 1; mkNode 1 0 1; mkNode 0 2 3] in
+  canonicalb f = true /\
+  restrict_faithful f [(0, true); (0, false); (5, true)] = Some [mkNode 3 0 0; mkNode 3 1 1; mkNode 1 0 1] /\
+  restrict f [(0, true); (0, false); (5, true)] = Ok [mkNode 3 0 0; mkNode 3 1 1; mkNode 1 0 1] /\
+  restrict_faithful f [(0, false); (1, false)] = Some [mkNode 3 0 0] /\
+  wfb n = true /\ canonicalb n = false /\
+  restrict_faithful n [(2, true)] = Some [mkNode 3 0 0; mkNode 3 1 1; mkNode 1 0 1].
+Proof. vm_compute. repeat split; reflexivity. Qed.
+Print Assumptions C06_restrict_faithful_nonvacuous.
